@@ -24,7 +24,6 @@ type c10case struct {
 }
 
 func c10eval(r *vx.R, c c10case) {
-	r.Eval(1)
 	key := keyByName("std")
 	nonce := fillLen("nonce", c.NLen)
 	pt := fillLen("pt", c.PtLen)
@@ -34,6 +33,7 @@ func c10eval(r *vx.R, c c10case) {
 		r.Add("unsupported_on_this_path", 1)
 		return
 	}
+	r.Eval(1)
 	sealed := gcmref.Seal(refCipher(key), nonce, pt, aad, c.Tag)
 	var input, wantOut []byte
 	if c.Op == "seal" {
